@@ -40,6 +40,7 @@ type ModelCase struct {
 	Rows      []MRow   `json:"rows"`
 	FailAfter int      `json:"fail_after"`
 	QueryErr  bool     `json:"query_err"`
+	BootFail  bool     `json:"boot_fail"`       // cold version cache and one of dbVersion's two statements fails
 	Spans     []string `json:"spans,omitempty"` // tempo_trace: ok | decode_err | panic | unknown
 }
 
@@ -353,6 +354,18 @@ func lokiCase1(r *rand.Rand, id int) *Case {
 		rs.Rows = append(rs.Rows, cells)
 	}
 	c.Script = []ResultSet{rs}
+	switch r.Intn(10) {
+	case 0, 1, 2:
+		c.Cold = true // the version cache is refreshed by this request
+	case 3:
+		c.Cold = true
+		c.Boot = []Boot{{Settings: "fail"}, {Tables: "fail"}, {Settings: "rows", Tables: "fail"}, {Settings: "fail", Tables: "fail"}}[r.Intn(4)]
+		mc.BootFail = true
+		c.Class += "+boot-fault"
+	case 4:
+		c.Cold = true
+		c.Boot = []Boot{{Settings: "rows"}, {Tables: "rows"}}[r.Intn(2)] // rows.Err is not looked at: as if the tables were empty
+	}
 	if !huge && r.Intn(4) == 0 {
 		// the client goes away after that many bytes of the answer (the outcome class stays what the model says)
 		k := []int{0, 1, 70, 500, 5000}[r.Intn(5)]
@@ -740,6 +753,14 @@ func testCase(r *rand.Rand, id int) *Case {
 		add("query", q)
 		c.Script = lokiScript(r)
 	}
+	switch r.Intn(10) {
+	case 0, 1, 2:
+		c.Cold = true
+	case 3:
+		c.Cold = true
+		c.Boot = []Boot{{Settings: "fail"}, {Tables: "fail"}, {Settings: "rows"}, {Tables: "rows"}, {Settings: "rows", Tables: "fail"}}[r.Intn(5)]
+		c.Class += "+boot-fault"
+	}
 	if r.Intn(5) == 0 && c.WaitMs == 0 {
 		k := []int{0, 1, 64, 1000, 20000}[r.Intn(5)]
 		c.AbortAfter = &k
@@ -884,7 +905,7 @@ func sweepCases(id0 int) []*Case {
 	var res []*Case
 	id := id0
 	for _, e := range eps {
-		for k, db := range []string{"statement-fails", "ends-at-once", "no-rows"} {
+		for k, db := range []string{"statement-fails", "ends-at-once", "no-rows", "boot-settings-fails", "boot-tables-fails"} {
 			c := &Case{ID: id, Class: "test/sweep/" + db, Method: e.method, Path: e.path, Params: e.params, Body: e.body}
 			if e.body != "" {
 				c.ContentType = "application/json"
@@ -895,6 +916,10 @@ func sweepCases(id0 int) []*Case {
 				rs.QueryErr = true
 			case 1:
 				rs.FailAfter = 0
+			case 3:
+				c.Cold, c.Boot = true, Boot{Settings: "fail"}
+			case 4:
+				c.Cold, c.Boot = true, Boot{Tables: "fail"}
 			}
 			c.Script = []ResultSet{rs}
 			res = append(res, c)
